@@ -61,7 +61,7 @@ theorem find_key_append_other (l : List (Str × List Nat)) (mp k : Str) (ids : L
     · exact ih
     · rfl
 
-theorem filterMap_congr' {α β : Type} (f g : α → Option β) (l : List α) (h : ∀ a ∈ l, f a = g a) : l.filterMap f = l.filterMap g := by
+theorem filterMap_congr_mem {α β : Type} (f g : α → Option β) (l : List α) (h : ∀ a ∈ l, f a = g a) : l.filterMap f = l.filterMap g := by
   induction l with
   | nil => rfl
   | cons a rest ih =>
@@ -134,7 +134,7 @@ theorem foreignOf_eq (s : St) (k : Str) :
 /-- **`Good` keeps the foreign entries of every loaded Manifest** -/
 theorem Good.foreign_kept {s s' : St} (h : Good s s') (k : Str) (hk : hasKey s k) : foreignOf s' k = foreignOf s k := by
   rw [foreignOf_eq, foreignOf_eq, h.fids k hk]
-  apply filterMap_congr'
+  apply filterMap_congr_mem
   intro id hid
   have hc : cellF s id = true := (List.mem_filter.mp hid).2
   unfold cellF at hc
@@ -1266,6 +1266,40 @@ theorem updRemoveStep_inv (s0 : St) (ud : UDict) (st st' : St) (kv : Str × Str 
       have g2 := good_markUpdated r mp' g1.fresh
       exact ⟨hi.1.trans (g1.trans g2), (hi.2.step g1).step g2⟩
 
+theorem good_refreshChainStep (w : World) (cmpath om odir : Str) (st st' : St) (ie : IEntry) (hs : Fresh st)
+    (h : refreshChainStep w cmpath om odir st ie = .ok st') : Good st st' := by
+  unfold refreshChainStep at h
+  split at h
+  · rename_i p n c hv
+    split at h
+    · split at h
+      · cases h
+      · split at h
+        · cases h
+        · rename_i e' changed hre
+          cases h
+          by_cases hc : changed = true
+          · simp only [hc, if_true]
+            have hf' := refreshEntry_notForeign _ _ (.file .MANIFEST p n c) e' _ _ _ changed rfl hre
+            have g1 := good_setVal st ie.1 e' hs (fun old ho => by rw [hv] at ho; cases ho; rfl) hf'
+            exact g1.trans (good_markUpdated _ om g1.fresh)
+          · simp only [hc, Bool.false_eq_true, if_false]
+            exact Good.refl _ hs
+    · cases h; exact Good.refl _ hs
+  · cases h; exact Good.refl _ hs
+
+theorem good_refreshChain (w : World) (path : Str) (s s' : St) (stack : List (Str × Str)) (hs : Fresh s)
+    (h : refreshChain w path s stack = .ok s') : Good s s' := by
+  unfold refreshChain at h
+  refine good_foldE (fun (x : St) => x) _ ?_ stack s s' hs h
+  intro x cm x' hx hstep
+  split at hstep
+  · cases hstep; exact Good.refl _ hx
+  · refine good_foldE (fun (y : St) => y) _ ?_ (iterManifests x.plain cm.1 false) x x' hx hstep
+    intro y kdv y' hy hstep2
+    exact good_foldE (fun (z : St) => z) (refreshChainStep w cm.1 kdv.1 kdv.2.1)
+      (fun z a z' hz hs3 => good_refreshChainStep w cm.1 kdv.1 kdv.2.1 z z' a hz hs3) (y.entriesOf kdv.1) y y' hy hstep2
+
 /-- **the whole of `update_entries_for_directory`** -/
 theorem good_updateDir (w : World) (s s' : St) (path : Str) (o : Opts) (hs : Fresh s) (h : updateDir w s path o = .ok s') :
     Good s s' := by
@@ -1286,11 +1320,15 @@ theorem good_updateDir (w : World) (s s' : St) (path : Str) (o : Opts) (hs : Fre
         · rename_i stack0 _ _ _ rel d i ks _ _
           split at h
           · cases h
-          · rename_i ws hw
-            have wi : WInv s2 ws := updWalk_inv w o newMs s2 _ _ ws _ _ ⟨Good.refl _ g2.fresh, u2⟩ hw
-            have fin := foldE_inv_mem (fun (st : St) => Good s2 st ∧ UdOK st ws.ud) updRemoveStep ws.ud
-              (fun x a x' ha hx hstep => updRemoveStep_inv s2 ws.ud x x' a ha hx hstep) ws.st s' ⟨wi.good, wi.ud⟩ h
-            exact (g1.trans g2).trans fin.1
+          · rename_i s3 hrc
+            have g3 := good_refreshChain w path s2 s3 _ g2.fresh hrc
+            split at h
+            · cases h
+            · rename_i ws hw
+              have wi : WInv s3 ws := updWalk_inv w o newMs s3 _ _ ws _ _ ⟨Good.refl _ g3.fresh, u2.step g3⟩ hw
+              have fin := foldE_inv_mem (fun (st : St) => Good s3 st ∧ UdOK st ws.ud) updRemoveStep ws.ud
+                (fun x a x' ha hx hstep => updRemoveStep_inv s3 ws.ud x x' a ha hx hstep) ws.st s' ⟨wi.good, wi.ud⟩ h
+              exact ((g1.trans g2).trans g3).trans fin.1
         · cases h
         · cases h
         · cases h
